@@ -1,5 +1,6 @@
 import GoCrypt.Proofs.Conc
 import GoCrypt.Props.C18
+import GoCrypt.Gen.Facts
 
 /-!
 # C08 — concurrent use is race free and returns the isolated results
@@ -263,6 +264,26 @@ example : regLoadResult (α := Nat) [] [.store 0 [36] 1, .load 1 [36], .store 2 
 example : regLoadResult (α := Nat) [] [.store 0 [36] 1, .load 1 [36], .store 2 [36] 2, .load 1 [36], .load 3 [95]] 3 = some (some 2) := by decide
 example : regLoadResult (α := Nat) [] [.store 0 [36] 1, .load 1 [36], .store 2 [36] 2, .load 1 [36], .load 3 [95]] 4 = some none := by decide
 
+/-- Regenerated from the current source: the module's only package-level variables of a type that
+carries shared mutable state by design (sync, sync/atomic, maps, channels) are the two `sync.Map`s,
+and they are touched only through `Load` / `Store` / `LoadOrStore`, in exactly the functions the
+protocol model has footprints for. (A new cache, pool, mutex or lock-free registry changes this list.) -/
+theorem shared_state_facts :
+    GoCrypt.Gen.Facts.sharedVars = [("", "hashCache", "sync.Map"), ("hash", "typeCache", "sync.Map")] ∧
+    GoCrypt.Gen.Facts.sharedVarUses =
+      [("", "Check", "hashCache.Load"), ("", "RegisterHash", "hashCache.Store"),
+       ("hash", "getTypeInfo", "typeCache.Load"), ("hash", "getTypeInfo", "typeCache.LoadOrStore")] := by
+  decide
+
+/-- Regenerated: no function outside `init` assigns to a package-level variable; the only
+address-of is Sun MD5's pointer to its constant empty separator string (never written through). -/
+theorem no_late_global_writes :
+    (GoCrypt.Gen.Facts.lateGlobalWrites.map fun w => (w.2.1, w.2.2)) =
+      [("Key", "&sunmd5.separator"), ("NewHash", "&sunmd5.separator")] := by
+  decide
+
+#print axioms shared_state_facts
+#print axioms no_late_global_writes
 #print axioms conc_results_isolated
 #print axioms conc_reports_own_struct
 #print axioms conc_forms_agree
